@@ -66,3 +66,26 @@ example : (run G.pipeCfg (init G.pipeCfg) demo).map (·.sent) =
     some [⟨1, 7, .rw⟩, ⟨2, 8, .rw⟩, ⟨3, 9, .close⟩] := by decide
 
 end Sftp.C02
+
+namespace Sftp.C02
+open Sftp Sftp.Pipe
+
+/-- The repaired controller drains both channels when `fini` fires and both Serve functions wait for it
+(regenerated facts), so the model runs with `drainOnFini`. -/
+theorem drain_current : G.pipeCfg.drainOnFini = true ∧ G.controllerDrainsOnFini = true ∧
+    G.serveWaitsForController = true := by decide
+
+/-- FULL-STRENGTH C02 for the code as it is now: once the controller has exited (which Serve waits for),
+every received request has been answered exactly once, with its id, in arrival order — for every schedule. -/
+theorem every_request_answered_current (as : List Action) (s : State)
+    (hr : run G.pipeCfg (init G.pipeCfg) as = some s) (hst : s.controllerStopped = true) :
+    s.sent = s.received.map mkResp :=
+  every_request_answered G.pipeCfg cfg_ok_current drain_current.1 as s hr hst
+
+/-- … and every maximal run ends in such a state. -/
+theorem every_request_answered_at_end_current (as : List Action) (s : State)
+    (hr : run G.pipeCfg (init G.pipeCfg) as = some s) (hstuck : ∀ a, step G.pipeCfg s a = none) :
+    s.sent = s.received.map mkResp :=
+  every_request_answered_at_end G.pipeCfg cfg_ok_current drain_current.1 (by decide) as s hr hstuck
+
+end Sftp.C02
